@@ -91,8 +91,8 @@ func main() {
 			}
 			return 25 * time.Minute
 		},
-		MinEvals:    5000,
-		MinDistinct: 300,
+		MinEvals:    15000,
+		MinDistinct: 1200,
 		Require: []string{"objects_max_size_roundtrips", "objects_random_roundtrips", "size_dependent_response_evaluations", "weight_vs_bytes_measurements",
 			"max_weight_blocks_validated_by_ValidateBlock", "read_bound_cases", "errors_delivered", "caller_limit_boundary_cases",
 			"transport_messages_checked", "transport_streams_checked", "rawresponse_payloads_checked",
